@@ -1,5 +1,6 @@
 import Rtsp.Model.Codec.Klv
 import Rtsp.Proofs.Codec.Common
+import Rtsp.Proofs.Codec.MiscSeries
 /-
 Property theorems for pkg/format/rtpklv about the model in `Model/Codec/Klv.lean`.
 
@@ -646,6 +647,41 @@ theorem c07_resync (h : List Pkt) (e : Enc) (f g : Bytes) (tf tg : UInt32)
   have hclean := c07_flush e f d0 tf hinv hmax
   have hcfg : e1.cfg = e.cfg := by simp only [e1, encode]; split <;> rfl
   exact c03_roundtrip e1 g _ tg (by rw [hcfg]; exact hc) hk (by rw [hcfg]; exact hcut) hclean
+
+/-! ## series of units through one encoder / decoder pair -/
+
+/-- a series of `Encode` calls, each unit sent with its own timestamp -/
+def encodeManyT (e : Enc) : List (Bytes × UInt32) → Enc × List Pkt
+  | [] => (e, [])
+  | (f, t) :: fs =>
+    let (e1, ps) := encode e f
+    let (e2, qs) := encodeManyT e1 fs
+    (e2, stamp t ps ++ qs)
+
+theorem encode_cfg (e : Enc) (f : Bytes) : (encode e f).1.cfg = e.cfg := by
+  unfold encode; split <;> rfl
+
+open Rtsp.Codec.Misc in
+/-- **C03, consecutive units**: any series of units (each beginning with the label prefix and not
+cut early, e.g. single-item units), each with its own timestamp, through one encoder / decoder pair
+comes back as exactly that series, with only "more packets needed" in between. -/
+theorem c03_roundtrip_many (e : Enc) (fs : List (Bytes × UInt32)) (d : Dec)
+    (hc : ValidCfg e.cfg) (hf : ∀ x ∈ fs, isKLVStart x.1 = true ∧ NoEarlyCut e.cfg x.1) (hd : Clean d e.seq) :
+    okFrames (runDec d (encodeManyT e fs).2).2 = fs.map (·.1) ∧ NoErr (runDec d (encodeManyT e fs).2).2 ∧
+    Clean (runDec d (encodeManyT e fs).2).1 (encodeManyT e fs).1.seq := by
+  induction fs generalizing e d with
+  | nil => exact ⟨rfl, by intro r hr; simp [encodeManyT, runDec] at hr, hd⟩
+  | cons x fs ih =>
+    obtain ⟨f, t⟩ := x
+    obtain ⟨hk, hcut⟩ := hf (f, t) (by simp)
+    obtain ⟨d1, hr1, hc1⟩ := c03_roundtrip e f d t hc hk hcut hd
+    have hcfg := encode_cfg e f
+    obtain ⟨i1, i2, i3⟩ := ih (encode e f).1 d1 (by rw [hcfg]; exact hc)
+      (fun y hy => by rw [hcfg]; exact hf y (by simp [hy])) hc1
+    simp only [encodeManyT, List.map_cons]
+    rw [runDec_append, hr1]
+    refine ⟨?_, noErr_append _ _ (noErr_more _ _) i2, i3⟩
+    rw [okFrames_append, okFrames_more, i1]; rfl
 
 /-! ## non-vacuity -/
 
